@@ -539,6 +539,10 @@ def _parse_bytes(b: bytes) -> Iterable[tuple[int, int, int, int, int]]:
             yield (opcode, arg, n_args, first_offset, next_offset)
             n_args = 0
             arg = 0
+    # Prefixes behind the last instruction (hand written bytecode) belong to no
+    # instruction, so they could not be written again
+    if n_args:
+        raise NotImplementedError("EXTENDED_ARG without an instruction at the end")
 
 
 def _n_args(instruction: Instruction, arg_value: int) -> int:
